@@ -358,17 +358,20 @@ func c03ReadBeforeOverwrite(c *Ctx) {
 	if df := p.Func("lib/comdoc.(*ComDoc).DeleteFile"); df == nil {
 		c.Undecided("R03e", "DeleteFile", "-", "function not found")
 	} else {
-		var blank *ssa.Store
+		var blanks []*ssa.Store
 		for _, b := range df.Blocks {
 			for _, in := range b.Instrs {
 				if st, ok := in.(*ssa.Store); ok && strings.HasSuffix(st.Val.Type().String(), "comdoc.DirEnt") {
-					blank = st
+					blanks = append(blanks, st)
 				}
 			}
 		}
 		frees := p.callsIn(df, "lib/comdoc.freeSectors")
-		ok := blank != nil && len(frees) == 2
-		if ok {
+		ok := len(blanks) > 0 && len(frees) == 2
+		for _, blank := range blanks {
+			if !ok {
+				break
+			}
 			// one iteration: do not re-enter the block that computes the entry's address
 			del := map[edge]bool{}
 			if ia, isIA := blank.Addr.(*ssa.IndexAddr); isIA {
